@@ -207,10 +207,10 @@ pub const ZOO_SYNC: usize = 5;
 pub fn pool(z: usize) -> &'static [&'static str] {
     match z {
         0 => &["aabx", "aaby", "aax", "aay", "bcz", "aabz", "aaaa", "bcbcx", "ay", "", "abbbby"],
-        1 => &["1+2*3", "-1^2^3!", "1 + ", "2 * (3", "4!!+5", "1+2+3+4", "^", "7"],
-        2 => &["abc 12 x9", "12.5 foo", "abc !", "a1 b2 c3 d4", "", "9.", "zzz"],
+        1 => &["1+2*3", "-1^2^3!", "1 + ", "2 * (3", "4!!+5", "1+2+3+4", "^", "7", "12*34", "1*2+3"],
+        2 => &["abc 12 x9", "12.5 foo", "abc !", "a1 b2 c3 d4", "", "9.", "zzz", "ab12 cd", "abc 1 d", "a 1.5 zz"],
         3 => &["1 2 3;", "1 300 2;", "1 x 2;", "999 999;", "1 2", ";", "12 @@ 7;", "1 300 2", "999 x"],
-        4 => &["12 Abc + 7", "Foo-Bar", "abc", "1 2 3", "", "X * 99 / Yz", "12.5"],
+        4 => &["12 Abc + 7", "Foo-Bar", "abc", "1 2 3", "", "X * 99 / Yz", "12.5", "12 Ab +", "1 Abc -", "123 A /"],
         5 => &["[a, bc, d]", "[a, (b, c]", "[a,, b]", " [ x1 , y2 , ] ", "[", "[a b]", "[]", "[[a], b]"],
         6 => &["1+2*3", "(1+2)*3", "((((4))))", "1+(2*", "2*/3", "1 + 2 - 3 * 4 / 5", "()", "((1)"],
         _ => &["(a b c)", "(a (b c) d)", "(a [b) c)", "((", "a", "(a (b [c] d) e)", "()", "(a))"],
